@@ -189,7 +189,8 @@ def judgeA (f : Form) (a : Agg) : Verdict :=
   else if f.kind = .obj ∧ M.flagNe f.flag then .violates .c6_7_1p3_threadMismatchSameScope
   else if l ≠ .none ∧ L.kindNe f.kind then .undefined .c6_2_7p2_kindAcrossScopes
   else if l ≠ .none ∧ a.linkNe l then .undefined .c6_2_2p7_internalAndExternal
-  else if f.kind = .obj ∧ l ≠ .none ∧ L.flagNe f.flag then .violates .c6_7_1p3_threadMismatchOtherScope
+  else if f.kind = .obj ∧ l ≠ .none ∧ a.fileM.flagNe f.flag then .violates .c6_7_1p3_threadMismatchFileScope
+  else if f.kind = .obj ∧ l ≠ .none ∧ L.flagNe f.flag then .violates .c6_7_1p3_threadMismatchUnseenBlockExtern
   else if f.scope = .file ∧ f.hasDef ∧ a.hasDef then
     (if l = .intern then .violates .c6_9p3_internalRedefined else .undefined .c6_9p5_externalRedefined)
   else if f.asm.isSome ∧ l = .none then .unspecified .asmLabel
@@ -482,7 +483,7 @@ def stepCheck (file top : Option Ent) (g : Ghost) (f : Form) : Bool :=
         let top' := if fs then none else some e.ent
         valid file' top' (ghostOf a') && decide (G file' top' (ghostOf a') = a') && outOK f a a' l e
   | .violates c =>
-    decide (c = .c6_7_1p3_threadMismatchOtherScope) || isError (declare (viewOf file top f.scope) f)
+    decide (c = .c6_7_1p3_threadMismatchUnseenBlockExtern) || isError (declare (viewOf file top f.scope) f)
   | .undefined c =>
     -- the model also rejects a second external definition (6.9p5), although C11 does not require it
     decide (c ≠ .c6_9p5_externalRedefined) || isError (declare (viewOf file top f.scope) f)
